@@ -171,7 +171,7 @@ impl Ctx {
 
     pub fn add_family(&self, stats: FamilyStats) {
         eprintln!(
-            "[{}] family {:<28} evaluations={} distinct_outcomes={} nontrivial={} states={} transitions={} exhaustive={}{} t={:.1}s",
+            "[{}] family {:<28} evaluations={} distinct_outcomes={} nontrivial={} states={} transitions={} depth={} exhaustive={}{} t={:.1}s",
             self.property,
             stats.name,
             stats.evaluations,
@@ -179,6 +179,7 @@ impl Ctx {
             stats.nontrivial,
             stats.states,
             stats.transitions,
+            stats.depth_completed,
             stats.exhaustive,
             stats.cap_hit.as_ref().map(|c| format!(" CAP:{}", c)).unwrap_or_default(),
             self.start.elapsed().as_secs_f64()
